@@ -41,7 +41,14 @@ def impl(case):
     if op == 'gmean':
         adt = case.get('adtype', 'float64')
         arr = list(case['arr']) if adt == 'list' else np.array(case['arr'], dtype=adt)
-        out = A.grouped_mean(arr, np.array(case['sc'], dtype=case['dtype']))
+        sc = np.array(case['sc'], dtype=case['dtype'])
+        if case.get('pre_sc') is not None:
+            # an earlier call with the SAME assignment array object holding another clustering, edited in place since
+            want = sc.copy()
+            sc[:] = np.array(case['pre_sc'], dtype=case['dtype'])
+            A.grouped_mean(arr, sc)
+            sc[:] = want
+        out = A.grouped_mean(arr, sc)
         return [float(x) for x in out]
     if op == 'tcounts':
         with C.scratch_dir() as d:
@@ -97,6 +104,10 @@ def model_query(case, impl_res):
     q = {k: v for k, v in case.items() if not k.startswith('_') and k not in ('dtype', 'spec')}
     if case['op'] == 'spc':
         q['w'], q['signed'] = DT[case['dtype']]
+    q.pop('pre_sc', None)
+    if case['op'] == 'sic':
+        # requested ids below zero are absent from every (non-negative) assignment vector: they select nothing
+        q['cl'] = [c for c in case['cl'] if c >= 0]
     if case['op'] == 'tcounts':
         q['_second'] = dict(q, sc=case['sc'][::-1])
     return q
@@ -163,6 +174,10 @@ def tally(rep, case, impl_res, ans):
         rep.count('dtype:' + case['dtype'])
     if case['op'] == 'gmean':
         rep.count('values_dtype:' + case.get('adtype', 'float64'))
+        if case.get('pre_sc') is not None:
+            rep.count('gmean: assignment array edited in place after an earlier call')
+    if case['op'] == 'sic' and any(c < 0 for c in case['cl']):
+        rep.count('sic: negative (absent) requested id')
     if case['op'] == 'tcounts':
         rep.count('model: spike_clusters.npy %s, template ids stored as %s' % (
             'present' if case['spec'].get('spike_clusters') is not None else 'absent',
@@ -220,6 +235,8 @@ def gen(tier, rng):
                 yield dict(p=PID, op='unique', l=list(sc), dtype=dts[k % 4])
                 yield dict(p=PID, op='gmean', sc=list(sc), arr=[((i * 5 + k) % 13) - 4 for i in range(n)],
                            dtype=dts[k % 4])
+    yield dict(p=PID, op='sic', sc=[0], cl=[-1], dtype='int64')
+    yield dict(p=PID, op='sic', sc=[0, 3, 3], cl=[-1, 3, -4], dtype='int32')
     yield dict(p=PID, op='sic', sc=[], cl=[1], dtype='int64')
     yield dict(p=PID, op='sic', sc=[1, 2], cl=[], dtype='int64')
     yield dict(p=PID, op='unique', l=[], dtype='int64')
@@ -272,11 +289,17 @@ def gen(tier, rng):
         elif t == 1:
             cl = rng.sample(range(0, R), rng.randrange(1, 8 if R == 60 else 70)) + rng.sample(ids, rng.randrange(0, len(ids) + 1))
             rng.shuffle(cl)
+            if rng.random() < .3:
+                cl = cl + [rng.pick([-1, -2, -R, -7])]       # partly absent requests: ids nobody carries, also negative ones
+                rng.shuffle(cl)
             yield dict(p=PID, op='sic', sc=sc, cl=cl, dtype=dt)
         elif t == 2:
             adt = rng.pick(['float64', 'float64', 'int64', 'int8', 'int16', 'uint8', 'bool', 'list', 'float32'])
             lo, hi = {'uint8': (0, 256), 'bool': (0, 2), 'int8': (-128, 128)}.get(adt, (-50, 50))
-            yield dict(p=PID, op='gmean', sc=sc, arr=[rng.randrange(lo, hi) for _ in range(n)], dtype=dt, adtype=adt)
+            c = dict(p=PID, op='gmean', sc=sc, arr=[rng.randrange(lo, hi) for _ in range(n)], dtype=dt, adtype=adt)
+            if rng.random() < .3:
+                c['pre_sc'] = [rng.pick(sc) for _ in sc]
+            yield c
         else:
             lookup = rng.sample(range(0, max(R, 200)), rng.randrange(1, 30))
             yield dict(p=PID, op='index_of', arr=[rng.pick(lookup) for _ in range(n)], lookup=lookup,
